@@ -404,11 +404,15 @@ class C04(Base):
             others = [f"o{j}" for j in range(rng.choice([0, 1, 3]))]
             h.ctxs.append(focus)
 
+            stored_ts = []
+
             def st():
                 t = rng.choice(types)
                 k = h.new_k()
                 c = focus if (not others or rng.random() < 0.6) else rng.choice(others)
                 h.store(t, c, {"k": k, "s": rng.choice(["x", "y", "zed"])}, k=k)
+                if c == focus:
+                    stored_ts.append(h.wall_now() // 1000)
 
             def cp(tag):
                 h.step({"op": "barrier", "meta": {"kind": "checkpoint", "tag": tag}})
@@ -424,6 +428,12 @@ class C04(Base):
                         h.await_(rs)
                     else:
                         h.replay(focus, t, tag=tag)
+                if stored_ts and rng.random() < 0.7:
+                    # SINCE exactly at the timestamp of a stored event (zone and segment boundaries are such values),
+                    # typed and untyped
+                    cut = rng.choice(stored_ts)
+                    h.replay(focus, rng.choice(variants), tag=tag + ":since", since=cut)
+                    h.replay(focus, rng.choice(types), tag=tag + ":since", since=stored_ts[-1])
                 if others and rng.random() < 0.5:
                     h.replay(rng.choice(others), tag=tag)
             layout_script(h, rng, st, rng.randrange(4, 16), cp, clock_back=0.5 if i % 3 == 0 else 0.0,
@@ -638,7 +648,7 @@ class C18(Base):
                   "compaction in between. Over the whole store: all ids distinct, per shard ids increase in apply order, ids after "
                   "recovery equal ids before, and the number of rows returned equals the number of events applied.")
     clauses = {"id-reuse", "id-change", "id-order", "lost", "duplicate-row", "foreign-row", "frames", "read-error", "panic"}
-    budgets = {"quick": {"histories": 60, "bursts": 1}, "thorough": {"histories": 8000, "bursts": 40}}
+    budgets = {"quick": {"histories": 60, "bursts": 2}, "thorough": {"histories": 8000, "bursts": 40}}
 
     @staticmethod
     def gen(seed, tier):
@@ -646,7 +656,8 @@ class C18(Base):
         for i in range(C18.budgets[tier]["histories"]):
             rng = rnd("C18", seed, i)
             burst = i < nb
-            cfg = {"shard_count": 1 if burst else rng.choice([1, 2, 3]), "fill_factor": 5000 if burst else rng.choice([1, 2, 4]),
+            burst2 = burst and i % 2 == 1      # every second burst history has a second shard issuing ids in the same millisecond
+            cfg = {"shard_count": (2 if burst2 else 1) if burst else rng.choice([1, 2, 3]), "fill_factor": 5000 if burst else rng.choice([1, 2, 4]),
                    "event_per_zone": 1 if burst else rng.choice([1, 2]), "segments_per_merge": 2,
                    "wal": {"flush_each_write": True, "buffered": burst, "buffer_size": 65536}}
             h = H(seed, "C18", cfg, uid_salt=f"C18-{seed}-{i}")
@@ -662,6 +673,14 @@ class C18(Base):
             if burst:
                 for _ in range(4100 + rng.randrange(0, 60)):
                     st()
+                if burst2:
+                    # the sequence of shard A has wrapped into the next millisecond; shard B now issues its first ids for
+                    # that millisecond while the clock stands still: ids must stay distinct across the store
+                    from .model import shard_of
+                    other = next(c for c in ("c1", "c2", "c3", "c4", "c5", "c6") if shard_of(c, 2) != shard_of("c0", 2))
+                    for _ in range(rng.randrange(5, 40)):
+                        k = h.new_k()
+                        h.store("t0", other, {"k": k}, k=k)
                 h.select("t0", tag="burst")
                 h.end("kill")
                 h.life(end="shutdown", tick_ms=0, wall_ms=BASE_WALL_MS, spin_ms=1)
@@ -1639,20 +1658,25 @@ class C19(Base):
     def gen(seed, tier):
         for i in range(C19.budgets[tier]["histories"]):
             rng = rnd("C19", seed, i)
-            cfg = {"shard_count": rng.choice([1, 1, 2]), "fill_factor": rng.choice([1, 2]), "event_per_zone": rng.choice([1, 2]),
+            torn_fixed = i % 4 == 1      # fixed histories: one shard, unbuffered WAL, a line torn inside a multi-byte character
+            cfg = {"shard_count": 1 if torn_fixed else rng.choice([1, 1, 2]), "fill_factor": rng.choice([1, 2]), "event_per_zone": rng.choice([1, 2]),
                    "segments_per_merge": 2,
-                   "wal": {"flush_each_write": True, "buffered": rng.choice([False, True]), "buffer_size": 64, "conservative_mode": True}}
+                   "wal": {"flush_each_write": True, "buffered": False if torn_fixed else rng.choice([False, True]), "buffer_size": 64,
+                           "conservative_mode": True}}
             h = H(seed, "C19", cfg, uid_salt=f"C19-{seed}-{i}")
-            h.life(end="kill" if rng.random() < 0.3 else "shutdown")
+            h.life(end="kill" if rng.random() < 0.3 and not torn_fixed else "shutdown")
             h.define("w", {"k": "int", "s": "string", "o": "int | null"})
             ctxs = ["c0", "c1", "c2"]
             pool = ["x", "", "héllo ✓", "17", "null", "line with spaces", "q\"uote" if False else "tab\tin", "L" * 300]
+            stores_in_life = [0]
 
-            def st():
+            def st(s_val=None):
                 k = h.new_k()
-                h.store("w", rng.choice(ctxs), {"k": k, "s": rng.choice(pool), "o": rng.choice([None, 1, -5])}, k=k)
-            nlife = rng.choice([1, 2])
+                stores_in_life[0] += 1
+                h.store("w", rng.choice(ctxs), {"k": k, "s": rng.choice(pool) if s_val is None else s_val, "o": rng.choice([None, 1, -5])}, k=k)
+            nlife = 2 if torn_fixed else rng.choice([1, 2])
             for li in range(nlife):
+                stores_in_life[0] = 0
                 for _ in range(rng.randrange(4, 14)):
                     x = rng.random()
                     if x < 0.2:
@@ -1661,12 +1685,23 @@ class C19(Base):
                         st()
                 h.flush()
                 if li < nlife - 1:
-                    if rng.random() < 0.4:
-                        # leave a torn last line: crash inside the next WAL append
-                        st()
+                    can_tear = cfg["shard_count"] == 1 and not cfg["wal"]["buffered"]
+                    if can_tear and (torn_fixed or rng.random() < 0.4):
+                        # leave a torn last line: crash inside the next WAL append. With one shard and an unbuffered WAL
+                        # every STORE is two writes (line, newline), so the line of the next STORE is write 2n+1 of this
+                        # lifetime. The next lifetime resumes that log, appends more entries, and a later pass archives it.
+                        nth = 2 * stores_in_life[0] + 1
+                        if torn_fixed:
+                            st("\u2713" * 120)      # three-byte characters: most cut positions are inside a character
+                            short = rng.choice([150, 151, 152, 200])
+                        else:
+                            st()
+                            short = rng.choice([1, 10, 40])
                         h.cur["io_faults"].append({"id": "torn", "op": "write", "path": "wal/shard-*/wal-*.log",
-                                                    "nth": 10_000, "short": rng.choice([1, 10, 40]), "then_crash": True})
-                        h.cur["torn_at_last_store"] = True
+                                                    "nth": nth, "short": short, "then_crash": True})
+                        h.cur["end"] = {"crash_before_io": 10 ** 9}
+                        h.life(end="shutdown")
+                        continue
                     h.end(rng.choice(["kill", "shutdown"]))
                     h.life(end="shutdown")
             for sh in range(cfg["shard_count"]):
